@@ -94,9 +94,9 @@ def FILTER : Bytes := [70, 105, 108, 116, 101, 114]
 def LENGTH : Bytes := [76, 101, 110, 103, 116, 104]
 
 /-- big-endian bytes of `n` in `w` bytes (`to_be_bytes`, value reduced mod 256^w) -/
-def beBytes : Nat → Nat → Bytes
+def beBytesW : Nat → Nat → Bytes
   | 0, _ => []
-  | w + 1, n => beBytes w (n / 256) ++ [(n % 256).toUInt8]
+  | w + 1, n => beBytesW w (n / 256) ++ [(n % 256).toUInt8]
 
 /-- sections of `create_xref_steam`: loop `for obj_id in 1..size+1`, no entry for object 0 -/
 def xrefStreamLoop (x : XrefMap) : List Nat → Nat → List (Nat × Nat) → List (Nat × List (Nat × Nat)) → List (Nat × List (Nat × Nat))
@@ -110,7 +110,7 @@ def xrefStreamLoop (x : XrefMap) : List Nat → Nat → List (Nat × Nat) → Li
       else xrefStreamLoop x rest id [] (acc ++ [(start', entries)])
 
 def xrefStreamContent (secs : List (Nat × List (Nat × Nat))) : Bytes :=
-  (secs.map fun (_, es) => (es.map fun (off, g) => [1] ++ beBytes 4 off ++ beBytes 2 g).flatten).flatten
+  (secs.map fun (_, es) => (es.map fun (off, g) => [1] ++ beBytesW 4 off ++ beBytesW 2 g).flatten).flatten
 
 def xrefStreamIndex (secs : List (Nat × List (Nat × Nat))) : Obj :=
   .arr (secs.map fun (s, es) => [Obj.int s, Obj.int es.length]).flatten
